@@ -438,9 +438,14 @@ def check(run):
 
     # ------------------------------------------------------------------ N2 binvox header
     mod = ix.modules.get("trimesh.exchange.binvox")
-    if mod is None or "_binvox_header" not in mod.constants:
+    hdr_name = "_binvox_header"
+    if mod is not None and hdr_name not in mod.constants:
+        # renamed: the one module-level string constant that starts with the binvox magic line
+        cands = [k for k, v in mod.constants.items() if isinstance(v[-1].value, ast.Constant) and isinstance(v[-1].value.value, str) and v[-1].value.value.lstrip().startswith("#binvox")]
+        hdr_name = cands[0] if len(cands) == 1 else hdr_name
+    if mod is None or hdr_name not in mod.constants:
         raise AnalysisError("anchor vanished: trimesh.exchange.binvox._binvox_header")
-    tmpl = mod.constants["_binvox_header"][-1].value
+    tmpl = mod.constants[hdr_name][-1].value
     if not (isinstance(tmpl, ast.Constant) and isinstance(tmpl.value, str)):
         raise AnalysisError("_binvox_header is no longer a string literal")
     lines = [ln.split() for ln in tmpl.value.strip("\n").split("\n")]
